@@ -131,6 +131,11 @@ def scripts_for(pid, tier, seed, fx):
                     add([f], [{"op": "call", "f": f, "t": t, "k": k} for (t, k) in s]
                         + [{"op": "call", "f": f, "t": 3, "k": 1}, {"op": "call", "f": f, "t": 3, "k": 2}], threads=3)
             rnd([tf, sf, af], 10 if thorough else 3, 80, threads=4, nkeys=4)
+        for tf in ("t_mem_lru", "t_mem_fifo", "t_mem_lfu", "t_mem_arc_l3"):
+            for s in seqs([(1, 1), (1, 2), (1, 3), (2, 1), (2, 4), (3, 1)], 5 if thorough else 4):
+                add([tf], [{"op": "call", "f": tf, "t": t, "k": k, "size": 40} for (t, k) in s]
+                    + [{"op": "call", "f": tf, "t": t, "k": k, "size": 40} for t in (1, 2) for k in (1, 2, 3)], threads=3)
+            rnd([tf], 10 if thorough else 4, 70, threads=3, nkeys=5)
         for tf in ("t_tags", "t_deps"):
             for s in seqs([(1, 1), (1, 2), (2, 1), (2, 2), (3, 1)], 5 if thorough else 4):
                 add([tf], [{"op": "call", "f": tf, "t": t, "k": k} for (t, k) in s]
